@@ -113,6 +113,7 @@ pub fn vx_chars_count(s: &str) -> (r: usize)
 // ---------------------------------------------------------------------------------------------
 // lemmas (proved, not assumed)
 // ---------------------------------------------------------------------------------------------
+//@@include common/utf8_lemmas.rs
 //@@include c22_lineindex/lemmas.rs
 
 // ---------------------------------------------------------------------------------------------
